@@ -1283,12 +1283,12 @@ def _shapes(max_total, max_packets):
 
 
 def _frag_jobs(quick):
-    max_total = 14 if quick else 19
+    max_total = 14 if quick else 18
     jobs = []
     for shape in _shapes(max_total, 4):
         n = 4 * len(shape) + sum(shape)
         fills = ['ramp']
-        if n <= (11 if quick else 18):
+        if n <= (11 if quick else 17):
             fills.append('mimic')
         for fi, fill in enumerate(fills):
             # stream id independent of the tier, so that thorough re-runs exactly the quick streams
@@ -1312,7 +1312,7 @@ def _router_jobs(quick):
     if quick:
         gmax = {1: 3, 2: 3, 3: 3, 4: 2}
     else:
-        gmax = {1: 4, 2: 4, 3: 4, 4: 4, 5: 3}
+        gmax = {1: 4, 2: 4, 3: 4, 4: 4, 5: 2}
     seqs = []
     for L in range(1, lmax + 1):
         for t in itertools.product('caoX', repeat=L):
@@ -1373,7 +1373,7 @@ def run(ck):
         'at most %s receivePacket calls of 3 receivers (+ final drain); states = schedule prefixes, transitions = '
         'operations. tcp/serial: all 256 CRTP headers x payload lengths 0-30 in both directions through the drivers.'
         % ('0-64,100,253-256,1021,1022' if quick else '0-100,253-257,511,512,1021-1024,4094,65533', max_total, lmax,
-           '3 (2 for 4 packets)' if quick else '4 (3 for 5 packets)'))
+           '3 (2 for 4 packets)' if quick else '4 (2 for 5 packets)'))
     ck.assume('reference wire format written in the check from the CPX protocol description: byte0 = dst | src<<3 | '
               'last<<6, byte1 = function | version<<6, TCP length prefix little-endian uint16 of header+payload, UART '
               'frame FF,len,body,XOR; host is little-endian (the library packs the prefix in native order)')
@@ -1395,7 +1395,7 @@ def run(ck):
     ck.note('frag_streams', len(fjobs))
     ck.note('router_max_packets', lmax)
     ck.note('router_max_receive_calls_in_schedule', gmax)
-    ck.note('frag_max_stream_bytes_mimic_fill', 11 if quick else 18)
+    ck.note('frag_max_stream_bytes_mimic_fill', 11 if quick else 17)
     ck.note('serial_driver', 'driven with a fake pyserial (module globals serial/list_ports/Lock rebound)')
 
 
